@@ -48,6 +48,33 @@ Theorem fault_stops_run : forall src prog fz sels n files,
 Proof. exact err_last_run. Qed.
 Print Assumptions fault_stops_run.
 
+(* "never silently ignored": a function that comes back with a value or a control-flow signal
+   has raised nothing on the way (no catch site turns an error into a success); one that comes
+   back with an error has raised exactly once, as the most recent event *)
+Theorem failure_never_ignored : everywhere (fun A m => raises_surface m).
+Proof. exact raises_surface_all. Qed.
+Print Assumptions failure_never_ignored.
+
+Theorem failure_never_ignored_run : forall src prog fz sels n files,
+  raises_surface (run_body src prog fz sels n files).
+Proof. exact raises_surface_run. Qed.
+Print Assumptions failure_never_ignored_run.
+
+(* a run that ends normally (or by exit) has not raised an error anywhere *)
+Theorem no_silent_failure : forall n src files sels fz s,
+  eval_program n src files sels fz = mkRun OOk s -> ~ In IoRaise (io s).
+Proof. exact EvalFaults.no_silent_failure. Qed.
+Print Assumptions no_silent_failure.
+
+(* a run that ends in an error has raised exactly one: the last event *)
+Theorem one_failure : forall n src files sels fz prog p s o,
+  parse_program src = POk prog p ->
+  eval_program n src files sels fz = mkRun o s ->
+  (exists e, o = ORuntime e) \/ o = OJson \/ (exists e, o = OSyntax e) ->
+  exists l, io s = IoRaise :: l /\ ~ In IoRaise l.
+Proof. exact EvalFaults.one_failure. Qed.
+Print Assumptions one_failure.
+
 (* top level: a run that ends in a runtime error / a JSON error / a selector's syntax error
    ends with the raise, and its output is exactly what had been printed before *)
 Theorem fault_stops_runtime : forall n src files sels fz e s,
@@ -141,3 +168,12 @@ Example ex_monotone :
                  false [] 2000 [] init_state = (r, s') /\
     output_of (io s') = output_of (io init_state) ++ [49%N; 10%N].
 Proof. vm_compute. do 2 eexists. split; reflexivity. Qed.
+
+(* a run that ends normally: several rules, a call, a match, a next -- and no raise in the log *)
+Example ex_no_failure :
+  let r := eval_program 2000
+    (bs "function f(x) { return x + 1 } { print f($); next } END { print 0 }")
+    [(bs "f", mkR [bs "[1,2]"] false)] [] false in
+  r_outcome r = OOk /\ existsb (fun e => match e with IoRaise => true | _ => false end) (io (r_state r)) = false /\
+  output_of (io (r_state r)) = [50%N; 10%N; 51%N; 10%N; 48%N; 10%N].
+Proof. vm_compute. repeat split. Qed.
